@@ -1,8 +1,8 @@
 (** Executable models instantiated with the data of this run (for extraction). *)
-From RV Require Import Model.Base Model.Spirv Model.Decoder.
-From RV Require Import Model.Module.
-From RV Require Import Gen.SpirvData Gen.TraverseData.
+From RV Require Import Model.Base Model.Spirv Model.Decoder Model.Module Model.Inst Model.Parser.
+From RV Require Import Gen.SpirvData Gen.TraverseData Inst.Linked.
 
 Definition c11_run_case := c11_run enums flags.
-
 Definition c15_eval_case := c15_eval defs.
+Definition run_parse_case := run_parse G.
+Definition run_asm_case := run_asm G.
